@@ -528,6 +528,68 @@ func runFieldCreateUnderLock(c *core.Ctx) {
 		c.Need(complete && k >= 2, "success returns for an existing field in CreateFieldIfNotExists")
 		c.Check("existing-field-type-compared", f.Name+"/found-returns", f.PosStr(), bad == "", bad)
 	}
+	// sibling agreement on the write path: wherever the shard's write path looks a field up and tests the answer for
+	// nil (validator, collection of the fields to create), it also compares the field's type with the point's; a
+	// bare existence test lets a field created by a concurrent writer with another type pass unnoticed
+	{
+		roots := []*core.FuncInfo{c.Fn("tsdb.(*Shard).validateSeriesAndFields"), c.Fn("tsdb.(*Shard).createFieldsAndMeasurements")}
+		cl := c.P.Closure(roots, core.InPkgs("tsdb"))
+		c.Counts["functions_analysed"] += len(cl)
+		n := 0
+		for _, g := range cl {
+			if g.Body == nil || g.Root().Name == "tsdb.(*MeasurementFields).CreateFieldIfNotExists" {
+				continue
+			}
+			info := g.Info()
+			lookup := calleeIn(g, "tsdb.(*MeasurementFields).FieldBytes", "tsdb.(*MeasurementFields).Field")
+			ast.Inspect(g.Body, func(nd ast.Node) bool {
+				switch x := nd.(type) {
+				case *ast.BinaryExpr:
+					// lookup(...) != nil without binding the field
+					if x.Op != token.NEQ && x.Op != token.EQL {
+						return true
+					}
+					if ce, ok := ast.Unparen(x.X).(*ast.CallExpr); ok && lookup(ce) && isNilExpr(info, x.Y) {
+						n++
+						c.Check("existing-field-type-compared", fmt.Sprintf("%s/lookup#%d", g.Root().Name, n), c.P.Pos(x.Pos()), false,
+							"the write path tests only whether the field exists and never looks at its type: a field created by a concurrent writer with another type since the point was validated passes, the point is acknowledged and the field holds values of two types")
+					}
+				case *ast.AssignStmt:
+					if len(x.Lhs) != 1 || len(x.Rhs) != 1 {
+						return true
+					}
+					ce, ok := ast.Unparen(x.Rhs[0]).(*ast.CallExpr)
+					id, ok2 := x.Lhs[0].(*ast.Ident)
+					if !ok || !ok2 || !lookup(ce) {
+						return true
+					}
+					obj := info.ObjectOf(id)
+					nilTested, typeRead := false, false
+					ast.Inspect(g.Body, func(m ast.Node) bool {
+						switch y := m.(type) {
+						case *ast.BinaryExpr:
+							if (y.Op == token.NEQ || y.Op == token.EQL) && isIdentObj(info, y.X, obj) && isNilExpr(info, y.Y) {
+								nilTested = true
+							}
+						case *ast.SelectorExpr:
+							if y.Sel.Name == "Type" && isIdentObj(info, y.X, obj) {
+								typeRead = true
+							}
+						}
+						return true
+					})
+					if !nilTested {
+						return true
+					}
+					n++
+					c.Check("existing-field-type-compared", fmt.Sprintf("%s/lookup#%d", g.Root().Name, n), c.P.Pos(x.Pos()), typeRead,
+						"the write path tests only whether the field exists and never looks at its type: a field created by a concurrent writer with another type since the point was validated passes, the point is acknowledged and the field holds values of two types")
+				}
+				return true
+			})
+		}
+		c.Floor("field lookups tested for nil on the write path", n, 2)
+	}
 }
 
 // guardedRows: fields confirmed (by reading every access) to be guarded by the struct's mutex. Candidates come
